@@ -157,12 +157,25 @@ impl CasObject {
 
 // ==== serialization side ================================================================================================
 // ---- writer stubs (R11): only the number of bytes written is modelled ---------------------------------------------------
+// `wlen()` is the writer's STREAM POSITION: an arbitrary start position (whatever `old(writer).wlen()` is when a function is entered -- never
+// assumed 0: a writer may already hold other data, e.g. an earlier xorb) plus the bytes written since.  Every contract below speaks about
+// differences of it only.
 pub trait Write {
     spec fn wlen(&self) -> nat;
     fn write_all(&mut self, buf: &[u8]) -> (r: Result<(), IoError>)
         ensures r is Ok ==> final(self).wlen() == old(self).wlen() + buf@.len();
 }
-pub trait Seek {}
+// std::io::Seek for the writers `CasObject::serialize` is generic over (`W: Write + Seek`; the stub trait names `Write` as supertrait so that its
+// contracts can speak about the position): `stream_position()` reports the position = start position + bytes written so far and moves nothing;
+// `seek` is an uninterpreted move.
+pub enum SeekFrom { Start(u64), End(i64), Current(i64) }
+pub uninterp spec fn spec_seek_to(pos: nat, to: SeekFrom) -> nat;
+pub trait Seek: Write {
+    fn stream_position(&mut self) -> (r: Result<u64, IoError>)
+        ensures final(self).wlen() == old(self).wlen(), r matches Ok(p) ==> p == old(self).wlen();
+    fn seek(&mut self, pos: SeekFrom) -> (r: Result<u64, IoError>)
+        ensures r matches Ok(p) ==> final(self).wlen() == spec_seek_to(old(self).wlen(), pos) && p == final(self).wlen();
+}
 // countio::Counter: counts the bytes that pass through it
 pub struct Counter { pub ghost n: nat }
 impl Counter {
@@ -387,6 +400,8 @@ impl CasObject {
                 &&& /*@C07*/ cas.info.chunk_hashes@.len() == k && cas.info.unpacked_chunk_offsets@.len() == k && cas.info.chunk_boundary_offsets@.len() == k
                 &&& /*@C07*/ forall|i: int| 0 <= i < k ==> cas.info.chunk_hashes@[i] == c[i].0
                 &&& /*@C07*/ forall|i: int| 0 <= i < k ==> cas.info.unpacked_chunk_offsets@[i] == c[i].1
+                // boundary i = number of bytes of THIS xorb written up to the end of chunk i: an offset from the xorb's first byte, whatever the
+                // writer's position was when serialization began (it is what get_byte_offset / get_bytes_by_chunk_range consume, U-XORBRANGE)
                 &&& /*@C07*/ forall|i: int| 0 <= i < k ==> cas.info.chunk_boundary_offsets@[i] == written_sum(data@, c, compression_scheme, i + 1)
                 &&& /*@C07*/ nondecreasing(cas.info.chunk_boundary_offsets@)
                 &&& /*@C07*/ nondecreasing(cas.info.unpacked_chunk_offsets@)
@@ -412,9 +427,12 @@ impl CasObject {
                 /*@C07*/ cas.info.boundaries_version == CAS_OBJECT_FORMAT_BOUNDARIES_VERSION,
                 /*@C07*/ cas.info.chunk_boundary_offsets@.len() == vx_i_boundary,
                 /*@C07*/ total_written_bytes == written_sum(data@, c, compression_scheme, vx_i_boundary as int),
+                // the writer stands `total_written_bytes` after the position it had when the xorb began (that position is arbitrary)
+                /*@C07*/ writer.wlen() == old(writer).wlen() + total_written_bytes,
                 /*@C07*/ raw_start_idx == bound_before(c, vx_i_boundary as int),
                 /*@C07*/ forall|i: int| 0 <= i < vx_i_boundary ==> cas.info.chunk_boundary_offsets@[i] == written_sum(data@, c, compression_scheme, i + 1),
-//@ after `serialize_chunk(chunk_raw_bytes, writer, compression_scheme)?;`
+//@ after `let chunk_raw_bytes = &data[raw_start_idx as usize..chunk_boundary as usize];`
+            // (placed before the chunk is written: the lemma does not depend on the write, and the running total may be updated in the same statement)
             proof { lemma_written_sum_mono(data@, c, compression_scheme, vx_i_boundary + 1, k as int); }
 //@ before `cas.info.fill_in_boundary_offsets();`
         proof {
